@@ -1,6 +1,6 @@
 (* Properties/C14.v — C14: a checkpoint restores exactly the state at its log index.
    Only the property theorems (closed by [exact]) and non-vacuity examples. *)
-From ZV Require Import Common.Bytes Ckpt.Consts Ckpt.Model Ckpt.Proofs Ckpt.ProofsName Ckpt.ProofsValue Ckpt.ProofsPlan Ckpt.ProofsChain Ckpt.ProofsFetch Ckpt.ProofsOrder Ckpt.ProofsCrash.
+From ZV Require Import Common.Bytes Ckpt.Consts Ckpt.Model Ckpt.Proofs Ckpt.ProofsName Ckpt.ProofsValue Ckpt.ProofsPlan Ckpt.ProofsChain Ckpt.ProofsFetch Ckpt.ProofsOrder Ckpt.ProofsCrash Ckpt.ProofsSource Ckpt.ProofsReuse.
 From Coq Require Import Permutation Sorted.
 Open Scope N_scope.
 
@@ -298,6 +298,59 @@ Theorem C14_restore_resumes_from_any_crash : forall fs cur ck k1 k2,
     (forall n, file_at fs' ck n = file_at fs ck n).
 Proof. exact restore_resumes_from_any_crash. Qed.
 Print Assumptions C14_restore_resumes_from_any_crash.
+
+(* ---------- (5d) fetching a snapshot: the source, the reuse of an older checkpoint ---------- *)
+
+(* node.GetValidBackupInfo: the source chosen is a peer other than the asker that answered it holds
+   the backup of exactly the requested (term,index) — the request carries that snapshot, the harness
+   stub rejects any other — and it is not this node's own directory *)
+Theorem C14_chosen_source_valid : forall local_id h myroot rl ns peers retry src,
+  choose_source retry (valid_sources local_id h myroot rl ns peers) = Some src ->
+  exists p, In p peers /\ src = source_of h rl ns p /\
+            p_replica p <> local_id /\ p_has p = true /\ ~ (p_addr p = h /\ p_root p = myroot).
+Proof. exact chosen_source_valid. Qed.
+Print Assumptions C14_chosen_source_valid.
+
+Theorem C14_source_found_when_available : forall local_id h myroot rl ns peers retry p,
+  In p peers -> eligible local_id h myroot p = true ->
+  exists src, choose_source retry (valid_sources local_id h myroot rl ns peers) = Some src.
+Proof. exact source_found_when_available. Qed.
+Print Assumptions C14_source_found_when_available.
+
+Theorem C14_no_source_when_none : forall local_id h myroot rl ns peers retry,
+  (forall p, In p peers -> eligible local_id h myroot p = false) ->
+  choose_source retry (valid_sources local_id h myroot rl ns peers) = None.
+Proof. exact no_source_when_none. Qed.
+Print Assumptions C14_no_source_when_none.
+
+Theorem C14_retries_reach_every_source : forall local_id h myroot rl ns peers src,
+  In src (valid_sources local_id h myroot rl ns peers) ->
+  exists retry, (retry < length (valid_sources local_id h myroot rl ns peers))%nat /\
+                choose_source retry (valid_sources local_id h myroot rl ns peers) = Some src.
+Proof. exact retries_reach_every_source. Qed.
+Print Assumptions C14_retries_reach_every_source.
+
+(* node.handleReuseOldCheckpoint: only the directory about to be transferred is ever changed — every
+   other checkpoint keeps its files and inodes (the plan has no access to file contents at all); the
+   checkpoint reused was fetched from the same source; each of its sst files is hard-linked in *)
+Theorem C14_reuse_only_touches_new : forall b src newn skip r b' m,
+  reuse_plan b src newn skip = UDone r b' -> m <> newn -> bd_lookup b' m = bd_lookup b m.
+Proof. exact reuse_only_touches_new. Qed.
+Print Assumptions C14_reuse_only_touches_new.
+
+Theorem C14_reuse_source_matches : forall b src newn skip ln b',
+  reuse_plan b src newn skip = UDone (Some ln) b' ->
+  ln <> newn /\ In ln (glob_dash (map fst b)) /\ info_matches b src ln = true.
+Proof. exact reuse_source_matches. Qed.
+Print Assumptions C14_reuse_source_matches.
+
+Theorem C14_reuse_links_all_sst : forall b src newn skip ln b' lc n j,
+  reuse_plan b src newn skip = UDone (Some ln) b' ->
+  bd_lookup b ln = Some lc -> NoDup (dnames (cd_files lc)) ->
+  In (n, j) (cd_files lc) -> is_sst n = true ->
+  exists nc, bd_lookup b' newn = Some nc /\ dir_lookup (cd_files nc) n = Some j.
+Proof. exact reuse_links_all_sst. Qed.
+Print Assumptions C14_reuse_links_all_sst.
 
 (* ---------- (6) value level, for ALL histories ---------- *)
 
